@@ -52,10 +52,10 @@ func checkC10(c *km.Ctx) {
 	r.NotDecided = []string{"panics inside crypto/x509, x/crypto/ssh, go-jose, encoding/asn1 (fuzzing is not replaced)", "numerical key sizes of concrete keys"}
 	r.Assume = []string{"go/types + go/ssa model the source faithfully", "crypto/tls hands out non-empty verified chains", "net/url.Values entries are non-empty when present"}
 
-	r.Rule("R-C10-1", "every issuing path signs only a key value that passed ValidatePublicKeyStrength (ok ∧ err == nil) on a dominating edge", 6)
-	r.Rule("R-C10-2", "ValidatePublicKeyStrength accepts RSA only with Size() >= 256 bytes and E >= 65537, ECDSA only with curve bit size > 224 (threshold <= 256), Ed25519; everything else is false", 3)
-	r.Rule("R-C10-3", "weak / unknown / malformed keys are refused with a client-error (4xx) status constant on every issuing path", 6)
-	r.Rule("R-C10-4", "decoder functions contain no unguarded panicking construct: every index / slice / type assertion / explicit panic / PEM-block dereference is guarded by a dominating length or nil test, or is in the reviewed table", 20)
+	r.Rule("R-C10-1", "every issuing path signs only a key value that passed ValidatePublicKeyStrength (ok ∧ err == nil) on a dominating edge", 3)
+	r.Rule("R-C10-2", "ValidatePublicKeyStrength accepts RSA only with Size() >= 256 bytes and E >= 65537, ECDSA only with curve bit size > 224 (threshold <= 256), Ed25519; everything else is false", 2)
+	r.Rule("R-C10-3", "weak / unknown / malformed keys are refused with a client-error (4xx) status constant on every issuing path", 3)
+	r.Rule("R-C10-4", "decoder functions contain no unguarded panicking construct: every index / slice / type assertion / explicit panic / PEM-block dereference is guarded by a dominating length or nil test, or is in the reviewed table", 15)
 
 	validate := certgenPkg + ".ValidatePublicKeyStrength"
 	// validatedHere: value v was passed to ValidatePublicKeyStrength whose (true, nil) result holds at `at`
